@@ -9,7 +9,7 @@ from jv.props import common as C
 
 ID = "C12"
 LEVEL = "fault_enumeration"
-BUDGET = {"quick": 2400, "thorough": 40000}
+BUDGET = {"quick": 4000, "thorough": 48000}
 RULE = (
     "case = generated scenario (DAGs may contain a dependency cycle or self-dependency) x schedule x generated faults: "
     "sbatch failing for its whole retry series or answering without a job id for the n-th distinct batch, a single "
